@@ -645,6 +645,7 @@ func cmdRun(prop string, args []string) int {
 		perJob = time.Duration(v) * time.Minute
 	}
 	failedJob := map[string]bool{}
+	skipped := 0
 	jc := make(chan job)
 	var wg sync.WaitGroup
 	var mu sync.Mutex
@@ -654,6 +655,18 @@ func cmdRun(prop string, args []string) int {
 		go func() {
 			defer wg.Done()
 			for j := range jc {
+				mu.Lock()
+				giveUp := len(jobErrs) >= 2
+				if giveUp {
+					// two workers already hung or died: a tree that spins does so in most chunks, and every one of them would sit
+					// out the watchdog. The chunks that finished decide; the rest are not started
+					failedJob[j.Out] = true
+					skipped++
+				}
+				mu.Unlock()
+				if giveUp {
+					continue
+				}
 				if err := runJob(b, prop, seed, tier, j, perJob); err != nil {
 					mu.Lock()
 					jobErrs = append(jobErrs, err.Error())
@@ -912,7 +925,7 @@ func cmdRun(prop string, args []string) int {
 			}
 			return 2
 		}
-		fmt.Printf("HARNESS-NOTE: %d worker processes hung or died (first: %s); the VIOLATION lines below are for violations that replayed in a fresh process\n", len(jobErrs), clip(jobErrs[0], 400))
+		fmt.Printf("HARNESS-NOTE: %d worker processes hung or died, %d chunks were not started after that (first: %s); the VIOLATION lines below are for violations that replayed in a fresh process\n", len(jobErrs), skipped, clip(jobErrs[0], 400))
 	}
 	if len(harness) > 0 {
 		if exit != 1 {
